@@ -133,6 +133,29 @@ def run(tier, seed):
                           "entry": "library", "allowed": ["Code", "NoKernelFoundError"], "diagonal": False, "broadcast": False,
                           "leaves": 1, "sweep": True})
             n_sweep += 1
+    # the catalogue (every mechanism of the generator, several spellings) in both languages: all-dense, all-compressed
+    # and two seeded format assignments each; the kinds rotate
+    import random as _random
+
+    from ..catalogue import CATALOGUE
+    from ..pipeline import format_choices
+
+    rng = _random.Random(8 * seed + 8)
+    n_cat = 0
+    for gi, (group, text) in enumerate(CATALOGUE):
+        asg = _e.parse(text)
+        diag, bcast = _e.has_diagonal(asg), _e.broadcast_target(asg)
+        for fi, fm in enumerate(format_choices(asg, rng, 4, 12)):
+            if fi >= 4:
+                break
+            for lang in ("c", "llvm"):
+                # the all-dense and all-compressed assignments (fi 0, 1) get all three kinds in one module
+                kinds = ["evaluate", "assemble", "compute"] if fi < 2 else [["evaluate"], ["compute"], ["assemble"]][(gi + fi) % 3]
+                lines.append({"text": text, "formats": [[n, f] for n, f in fm.items()], "kinds": kinds, "lang": lang,
+                              "entry": "library" if (gi + fi) % 3 else "cli",
+                              "allowed": ["Code", "NoKernelFoundError"] + (["DiagonalAccessError"] if diag else []),
+                              "diagonal": diag, "broadcast": bcast, "leaves": len(_e.leaves(asg["rhs"])), "sweep": True})
+                n_cat += 1
     cases = []
     for i, l in enumerate(lines):
         cases.append({"cid": i, "text": l["text"], "formats": [list(x) for x in l["formats"]], "kinds": sorted(l["kinds"]),
@@ -172,7 +195,7 @@ def run(tier, seed):
                    "non-trivial = code was generated (and accepted by its tool chain).",
            "samples": [{"request": l, "event": {k: v for k, v in outcomes.get(i, {}).items() if k != "code"}}
                        for i, l in enumerate(lines[:400:100])],
-           "outcome_histogram": hist, "exhaustive_requests": exhaustive_part, "format_sweep_requests": n_sweep, "exhaustive": False, "limit_s": LIMIT_S}
+           "outcome_histogram": hist, "exhaustive_requests": exhaustive_part, "format_sweep_requests": n_sweep, "catalogue_requests": n_cat, "exhaustive": False, "limit_s": LIMIT_S}
     from .. import structure_conf
 
     # legal_iteration_orders is compared with spec/Structure.tla; a deviation is a NOTE, not a violation: offering fewer
